@@ -264,16 +264,36 @@ def AllExecAt (script : List (List Ans)) (t : Nat) : Prop :=
 instance (script : List (List Ans)) (t : Nat) : Decidable (AllExecAt script t) := by
   unfold AllExecAt; split <;> infer_instance
 
-/-- PWatch: the session is closed as executed at tick `t` only if every member is reported executed at that tick
-    (so a member that is still pending, or whose lookup fails, is never dropped), and it is not kept open past a tick
-    at which all members are executed -/
+/-- member `j` was reported executed at some tick before `t` (the destination never un-executes a proposal) -/
+def seenExecBefore (script : List (List Ans)) (t j : Nat) : Bool :=
+  (script.take t).any fun v => v[j]? == some Ans.exec
+
+/-- closing at tick `t` is justified: every member is reported executed at `t`, or was at an earlier tick -/
+def ClosedOk (script : List (List Ans)) (t : Nat) : Prop :=
+  match script[t]? with
+  | some v => ∀ j, j < v.length → (v[j]? = some Ans.exec ∨ seenExecBefore script t j = true)
+  | none => False
+
+instance (script : List (List Ans)) (t : Nat) : Decidable (ClosedOk script t) := by
+  unfold ClosedOk; split <;> infer_instance
+
+/-- PWatch: the session is closed as executed at tick `t` only if every member has been reported executed by then
+    (so a member that is still pending, or whose lookups have only failed, is never dropped), and it is not kept open
+    past a tick at which all members are reported executed -/
 def PWatch (script : List (List Ans)) (closed : Option Nat) : Prop :=
   match closed with
-  | some t => AllExecAt script t ∧ ∀ t' < t, ¬ AllExecAt script t'
+  | some t => ClosedOk script t ∧ ∀ t' < t, ¬ AllExecAt script t'
   | none   => ∀ t' < script.length, ¬ AllExecAt script t'
 
 instance (script : List (List Ans)) (closed : Option Nat) : Decidable (PWatch script closed) := by
   unfold PWatch; split <;> infer_instance
+
+/-- ticks that happen BEFORE the signature of a session arrives do not change what is submitted: if the session was
+    not closed as executed by then, the submission is exactly the signed batch (the batch is never edited) -/
+def submitAfterTicks (script : List (List Ans)) (signed : List Nat) : List (List Nat) :=
+  match watch script with
+  | some _ => []
+  | none   => submitted signed
 
 /-! ### histories -/
 
